@@ -8,6 +8,7 @@ import itertools
 
 import common
 from common import hexarg
+import session
 import simnet
 
 BOUNDARY = [0x00, 0x7F, 0x80, 0x8F, 0x90, 0x9F, 0xA0, 0xBF, 0xC0, 0xC1, 0xC2, 0xDF, 0xE0, 0xE1,
@@ -166,10 +167,14 @@ def run_e2e(ctx):
                 for i, fr in enumerate(frs):
                     op = 1 if i == 0 else 0
                     stream += simnet.srv_frame(op, fr, fin=1 if i == len(frs) - 1 else 0)
-                for api in ("recv", "recv_data"):
+                for api in ("recv", "recv_data", "recv_data+trace"):
+                    if api == "recv_data+trace" and len(frs) < 2:
+                        continue
                     ws, sock = simnet.make_ws([("chunk", stream)], skip_utf8_validation=skip, mask_key=b"abcd")
                     try:
-                        r = getattr(ws, api)()
+                        # (tracing on for the third variant: the trace lines render every FRAME, the judgement is on the MESSAGE)
+                        with session.tracing(api.endswith("+trace")):
+                            r = getattr(ws, api.split("+")[0])()
                         if api == "recv":
                             obs = ("ret", r.encode("utf-8", "surrogatepass") if isinstance(r, str) else bytes(r))
                         else:
@@ -197,7 +202,7 @@ def run_e2e(ctx):
                                 ctx.violate("text-delivered-iff-wellformed", cause, inp,
                                             "raises PAYLOAD or PROTO", str(obs), size=len(p) + len(frs))
                     else:
-                        if api == "recv_data" and (obs[0] != "ret" or obs[1] != p or obs[2] != 1):
+                        if api.startswith("recv_data") and (obs[0] != "ret" or obs[1] != p or obs[2] != 1):
                             ctx.violate("skip-passthrough", "bytes-changed", inp, "returns (1, payload)", str(obs),
                                         size=len(p) + len(frs))
                         # the str-returning call cannot pass ill-formed bytes through: it returns the text when there is one and
